@@ -32,6 +32,10 @@ type Case struct {
 	Chain  []Level  `json:"chain"`  // Chain[0] is the typedef directly on the base
 	Leaves []Level  `json:"leaves"` // each leaf uses the last typedef (or the base) with its own restriction / default
 	Probes []string `json:"probes,omitempty"`
+	// Scope: 0 all typedefs at module level; 1 all local to the top container; 2 the outer half local, the rest at module
+	// level.  OwnPfx: typedef names are referred to with the module's own prefix (which changes nothing).
+	Scope  int  `json:"scope,omitempty"`
+	OwnPfx bool `json:"own_prefix,omitempty"`
 }
 
 var patternPool = []string{"(ab+)|(cd+)", "([0-9]+)|(none)", "[a-z]+", "[a-z0-9]*", "a.*", ".*z", "(ab|cd)+", "[^x]*", "a|b", ".{2,6}"}
@@ -194,7 +198,7 @@ func genCase(t *rapid.T) Case {
 	c := Case{}
 	switch g.pick(5, "basekind") {
 	case 4:
-		c.Base = []string{"boolean", "enumeration", "union"}[g.pick(3, "fixed")]
+		c.Base = []string{"boolean", "enumeration", "union", "union-shared"}[g.pick(4, "fixed")]
 	case 0:
 		c.Base = []string{"int8", "int16", "int32", "int64"}[g.pick(4, "iw")]
 	case 1:
@@ -207,6 +211,8 @@ func genCase(t *rapid.T) Case {
 	default:
 		c.Base = "string"
 	}
+	c.Scope = []int{0, 0, 1, 2}[g.pick(4, "scope")]
+	c.OwnPfx = g.pick(3, "ownpfx") == 0
 	sp := baseSpace(c)
 	if c.Base == "decimal64" {
 		// stay far below 2^53 scaled units: exactness of 64-bit decimal64 bounds is C16's business
@@ -316,6 +322,9 @@ var fixedBases = map[string]*sg.TypeSpec{
 	"boolean":     {Name: "boolean"},
 	"enumeration": {Name: "enumeration", Enums: []string{"one", "two", "three"}},
 	"union":       {Name: "union", Members: []*sg.TypeSpec{{Name: "uint8", Range: "0..100"}, {Name: "enumeration", Enums: []string{"auto"}}}},
+	// two members that are refinements of one and the same typedef ("pct", uint8 0..100, defined next to the union):
+	// the type tree forks and rejoins, which is no cycle
+	"union-shared": {Name: "union", Members: []*sg.TypeSpec{{Name: "pct", Range: "0..10"}, {Name: "pct2"}, {Name: "pct", Range: "90..max"}, {Name: "enumeration", Enums: []string{"auto"}}}},
 }
 
 func baseSpace(c Case) *vt.Space {
@@ -327,6 +336,11 @@ func baseSpace(c Case) *vt.Space {
 	case "union":
 		u8 := vt.Builtin("uint8", 0)
 		u8.Ranges = []vt.Iv{{Lo: big.NewInt(0), Hi: big.NewInt(100)}}
+		return &vt.Space{Kind: "union", Members: []*vt.Space{u8, {Kind: "enumeration", Names: []string{"auto"}}}}
+	case "union-shared":
+		// pct 0..10 | pct2 (= pct 40..60) | pct 90..max
+		u8 := vt.Builtin("uint8", 0)
+		u8.Ranges = []vt.Iv{{Lo: big.NewInt(0), Hi: big.NewInt(10)}, {Lo: big.NewInt(40), Hi: big.NewInt(60)}, {Lo: big.NewInt(90), Hi: big.NewInt(100)}}
 		return &vt.Space{Kind: "union", Members: []*vt.Space{u8, {Kind: "enumeration", Names: []string{"auto"}}}}
 	}
 	return vt.Builtin(c.Base, c.FD)
@@ -380,20 +394,45 @@ func typeSpec(name string, l Level, fd int, withFD bool) *sg.TypeSpec {
 
 func build(c Case) *sg.Mod {
 	m := &sg.Mod{Name: "m0", Prefix: "m0"}
+	var tds []*sg.Typedef
+	ref := func(name string) string {
+		if c.OwnPfx && vt.Builtin(name, 1) == nil && name != "enumeration" && name != "union" {
+			return "m0:" + name
+		}
+		return name
+	}
 	prev := c.Base
 	if fb := fixedBases[c.Base]; fb != nil {
 		// the base type statement itself is written once, in a bottom typedef without default
-		m.Typedefs = append(m.Typedefs, &sg.Typedef{Name: "b0", Type: fb})
+		fb = sg.Clone(fb)
+		if c.Base == "union-shared" {
+			tds = append(tds, &sg.Typedef{Name: "pct", Type: &sg.TypeSpec{Name: "uint8", Range: "0..100"}},
+				&sg.Typedef{Name: "pct2", Type: &sg.TypeSpec{Name: ref("pct"), Range: "40..60"}})
+			for _, mb := range fb.Members {
+				mb.Name = ref(mb.Name)
+			}
+		}
+		tds = append(tds, &sg.Typedef{Name: "b0", Type: fb})
 		prev = "b0"
 	}
 	for i, l := range c.Chain {
 		name := fmt.Sprintf("t%d", i)
-		m.Typedefs = append(m.Typedefs, &sg.Typedef{Name: name, Type: typeSpec(prev, l, c.FD, prev == "decimal64"), Default: l.Default})
+		tds = append(tds, &sg.Typedef{Name: name, Type: typeSpec(ref(prev), l, c.FD, prev == "decimal64"), Default: l.Default})
 		prev = name
 	}
 	top := &sg.Node{Kind: "container", Name: "m0-top"}
 	for i, l := range c.Leaves {
-		top.Kids = append(top.Kids, &sg.Node{Kind: "leaf", Name: fmt.Sprintf("leaf%d", i), Type: typeSpec(prev, l, c.FD, prev == "decimal64"), Default: l.Default})
+		top.Kids = append(top.Kids, &sg.Node{Kind: "leaf", Name: fmt.Sprintf("leaf%d", i), Type: typeSpec(ref(prev), l, c.FD, prev == "decimal64"), Default: l.Default})
+	}
+	// where the typedefs are written: an inner definition may refer to an outer (module-level) one, not the other way
+	switch c.Scope {
+	case 1:
+		top.Typedefs = tds
+	case 2:
+		h := len(tds) / 2
+		m.Typedefs, top.Typedefs = tds[:h], tds[h:]
+	default:
+		m.Typedefs = tds
 	}
 	m.Nodes = []*sg.Node{top}
 	return m
